@@ -31,13 +31,28 @@ Proof.
   unfold pay. intros H. dmatch H. inv H. rewrite !bsum_badd. lia.
 Qed.
 
-Lemma apply_effects_bsum effs : forall b b', apply_effects b effs = Some b' -> bsum b' = bsum b.
+Lemma hook_sub_bsum b subs a f fwd b' subs' :
+  hook_sub b subs a f fwd = Some (b', subs') -> bsum b' = bsum b.
 Proof.
-  induction effs as [|e r IH]; intros b b' H; cbn [apply_effects] in H.
+  unfold hook_sub. intros H. dmatch H; inv H; try reflexivity.
+  eapply pay_bsum; eassumption.
+Qed.
+
+Lemma apply_effects_bsum effs : forall b subs b' subs', apply_effects b subs effs = Some (b', subs') -> bsum b' = bsum b.
+Proof.
+  induction effs as [|e r IH]; intros b subs b' subs' H; cbn [apply_effects] in H.
   - inv H. reflexivity.
-  - destruct e; try (apply IH; exact H).
-    destruct (pay b from to amt) as [b1|] eqn:E; [|discriminate].
-    rewrite (IH _ _ H). eapply pay_bsum; exact E.
+  - destruct e.
+    + destruct (pay b from to amt) as [b1|] eqn:E; [|discriminate].
+      rewrite (IH _ _ _ _ H). eapply pay_bsum; exact E.
+    + destruct (hook_sub b subs a _ profit) as [[b1 s1]|] eqn:E; [|discriminate].
+      rewrite (IH _ _ _ _ H). eapply hook_sub_bsum; exact E.
+    + destruct (hook_sub b subs a _ 0) as [[b1 s1]|] eqn:E; [|discriminate].
+      rewrite (IH _ _ _ _ H). eapply hook_sub_bsum; exact E.
+    + destruct (hook_sub b subs a _ 0) as [[b1 s1]|] eqn:E; [|discriminate].
+      rewrite (IH _ _ _ _ H). eapply hook_sub_bsum; exact E.
+    + destruct (hook_sub b subs a _ 0) as [[b1 s1]|] eqn:E; [|discriminate].
+      rewrite (IH _ _ _ _ H). eapply hook_sub_bsum; exact E.
 Qed.
 
 (* what a transaction-level handler may change: everything but supply, minter, mint params *)
@@ -55,11 +70,28 @@ Lemma mint_frame_upd s bk ms mq bq bc u2i sidx gr :
   bsum bk = bsum (c_bank s) -> mint_frame s (chain_upd s bk ms mq bq bc u2i sidx gr).
 Proof. intros H. repeat split; cbn; assumption. Qed.
 
-Ltac frame_upd := apply mint_frame_upd; try reflexivity;
+Lemma mint_frame_subs s subs n : mint_frame s (chain_set_subs s subs n).
+Proof. repeat split. Qed.
+Lemma mint_frame_with_subs s subs : mint_frame s (with_subs s subs).
+Proof. repeat split. Qed.
+Lemma mint_frame_ovm s v p c : mint_frame s (chain_set_ovm s v p c).
+Proof. repeat split. Qed.
+Lemma mint_frame_set_bank s b : bsum b = bsum (c_bank s) -> mint_frame s (set_bank s b).
+Proof. intros H. repeat split; cbn; assumption. Qed.
+
+(* chain_upd over a state whose subaccounts were replaced *)
+Lemma mint_frame_upd_subs s subs bk ms mq bq bc u2i sidx gr :
+  bsum bk = bsum (c_bank s) -> mint_frame s (chain_upd (with_subs s subs) bk ms mq bq bc u2i sidx gr).
+Proof. intros H. repeat split; cbn; assumption. Qed.
+
+Ltac bsum_hyps :=
   repeat match goal with
-  | H : apply_effects _ _ = Some _ |- _ => rewrite (apply_effects_bsum _ _ _ H); clear H
+  | H : apply_effects _ _ _ = Some _ |- _ => rewrite (apply_effects_bsum _ _ _ _ _ H); clear H
   | H : pay _ _ _ _ = Some _ |- _ => rewrite (pay_bsum _ _ _ _ _ H); clear H
   end; try reflexivity.
+Ltac frame_upd :=
+  first [ apply mint_frame_upd_subs | apply mint_frame_upd | apply mint_frame_set_bank
+        | apply mint_frame_ovm | apply mint_frame_with_subs | apply mint_frame_subs ]; bsum_hyps.
 
 Lemma market_add_frame s sg tk u st en od sts s' : market_add s sg tk u st en od sts = Some s' -> mint_frame s s'.
 Proof. unfold market_add. intros H; dmatch H; inv H; frame_upd. Qed.
@@ -67,27 +99,72 @@ Lemma market_update_frame s tk u st en sts s' : market_update s tk u st en sts =
 Proof. unfold market_update. intros H; dmatch H; inv H; frame_upd. Qed.
 Lemma market_resolve_frame s tk u r w sts s' : market_resolve s tk u r w sts = Some s' -> mint_frame s s'.
 Proof. unfold market_resolve. intros H; dmatch H; inv H; frame_upd. Qed.
+Lemma house_deposit_core_frame s c d m a g s' : house_deposit_core s c d m a g = Some s' -> mint_frame s s'.
+Proof. unfold house_deposit_core. intros H; dmatch H; inv H; frame_upd. Qed.
 Lemma house_deposit_frame s sg tk m a k d s' : house_deposit s sg tk m a k d = Some s' -> mint_frame s s'.
-Proof. unfold house_deposit. intros H; dmatch H; inv H; frame_upd. Qed.
+Proof. unfold house_deposit. intros H; dmatch H. eapply house_deposit_core_frame; exact H. Qed.
+Lemma withdraw_core_frame s sg d m p mo a ob s' amt : withdraw_core s sg d m p mo a ob = Some (s', amt) -> mint_frame s s'.
+Proof. unfold withdraw_core. intros H; dmatch H; inv H; frame_upd. Qed.
 Lemma house_withdraw_frame s sg tk m p mo a k d s' : house_withdraw s sg tk m p mo a k d = Some s' -> mint_frame s s'.
-Proof. unfold house_withdraw. intros H; dmatch H; inv H; frame_upd. Qed.
+Proof.
+  unfold house_withdraw. intros H. dmatch H. inv H.
+  match goal with E : withdraw_core _ _ _ _ _ _ _ _ = Some _ |- _ => eapply withdraw_core_frame; exact E end.
+Qed.
+Lemma wager_core_frame s sg u a sm so ov mu al s' : wager_core s sg u a sm so ov mu al = Some s' -> mint_frame s s'.
+Proof. unfold wager_core. intros H; dmatch H; inv H; frame_upd. Qed.
 Lemma bet_wager_frame s sg tk u a sm so ov mu al k ot s' : bet_wager s sg tk u a sm so ov mu al k ot = Some s' -> mint_frame s s'.
-Proof. unfold bet_wager. intros H; dmatch H; inv H; frame_upd. Qed.
+Proof. unfold bet_wager. intros H; dmatch H. eapply wager_core_frame; exact H. Qed.
 Lemma do_grant_frame s a b k l e s' : do_grant s a b k l e = Some s' -> mint_frame s s'.
 Proof. unfold do_grant. intros H; dmatch H; inv H; frame_upd. Qed.
 Lemma do_revoke_frame s a b k s' : do_revoke s a b k = Some s' -> mint_frame s s'.
 Proof. unfold do_revoke. intros H; dmatch H; inv H; frame_upd. Qed.
 Lemma do_send_frame s a b k s' : do_send s a b k = Some s' -> mint_frame s s'.
 Proof. unfold do_send. intros H; dmatch H; inv H; frame_upd. Qed.
-
-Lemma settle_bets_bsum ids : forall x bk h sidx cnt x' bk' sidx' cnt',
-  settle_bets ids x bk h sidx cnt = Some (x', bk', sidx', cnt') -> bsum bk' = bsum bk.
+Lemma ovm_propose_frame s sg tk ks li s' : ovm_propose s sg tk ks li = Some s' -> mint_frame s s'.
+Proof. unfold ovm_propose. intros H; dmatch H; inv H; frame_upd. Qed.
+Lemma ovm_vote_frame s tk vi pid v s' : ovm_vote s tk vi pid v = Some s' -> mint_frame s s'.
+Proof. unfold ovm_vote. intros H; dmatch H; inv H; frame_upd. Qed.
+Lemma sub_create_frame s c o l s' : sub_create s c o l = Some s' -> mint_frame s s'.
 Proof.
-  induction ids as [|id r IH]; intros x bk h sidx cnt x' bk' sidx' cnt' H; cbn [settle_bets] in H.
+  unfold sub_create. intros H; dmatch H; inv H.
+  eapply mint_frame_trans; [apply mint_frame_subs|]. apply mint_frame_set_bank. cbn. bsum_hyps.
+Qed.
+Lemma sub_topup_frame s c o l s' : sub_topup s c o l = Some s' -> mint_frame s s'.
+Proof.
+  unfold sub_topup. intros H; dmatch H; inv H.
+  eapply mint_frame_trans; [apply mint_frame_with_subs|]. apply mint_frame_set_bank. cbn. bsum_hyps.
+Qed.
+Lemma sub_withdraw_unlocked_frame s o s' : sub_withdraw_unlocked s o = Some s' -> mint_frame s s'.
+Proof.
+  unfold sub_withdraw_unlocked. intros H; dmatch H; inv H.
+  eapply mint_frame_trans; [apply mint_frame_with_subs|]. apply mint_frame_set_bank. cbn. bsum_hyps.
+Qed.
+Lemma sub_wager_frame s sg tk ic tk2 u a sm so ov mu al k ot md sd s' :
+  sub_wager s sg tk ic tk2 u a sm so ov mu al k ot md sd = Some s' -> mint_frame s s'.
+Proof.
+  unfold sub_wager. intros H; dmatch H.
+  eapply mint_frame_trans; [|eapply wager_core_frame; exact H].
+  eapply mint_frame_trans; [apply mint_frame_with_subs|]. apply mint_frame_set_bank. cbn. bsum_hyps.
+Qed.
+Lemma sub_house_deposit_frame s sg tk m a k d s' : sub_house_deposit s sg tk m a k d = Some s' -> mint_frame s s'.
+Proof.
+  unfold sub_house_deposit. intros H; dmatch H; inv H.
+  eapply mint_frame_trans; [eapply house_deposit_core_frame; eassumption|apply mint_frame_with_subs].
+Qed.
+Lemma sub_house_withdraw_frame s sg tk m p mo a k d s' : sub_house_withdraw s sg tk m p mo a k d = Some s' -> mint_frame s s'.
+Proof.
+  unfold sub_house_withdraw. intros H; dmatch H; inv H.
+  eapply mint_frame_trans; [eapply withdraw_core_frame; eassumption|apply mint_frame_with_subs].
+Qed.
+
+Lemma settle_bets_bsum ids : forall x bk subs h sidx cnt x' bk' subs' sidx' cnt',
+  settle_bets ids x bk subs h sidx cnt = Some (x', bk', subs', sidx', cnt') -> bsum bk' = bsum bk.
+Proof.
+  induction ids as [|id r IH]; intros x bk subs h sidx cnt x' bk' subs' sidx' cnt' H; cbn [settle_bets] in H.
   - inv H. reflexivity.
   - destruct (settle_bet x h id) as [[x1 effs]|]; [|discriminate].
-    destruct (apply_effects bk effs) as [bk1|] eqn:E; [|discriminate].
-    rewrite (IH _ _ _ _ _ _ _ _ _ H). eapply apply_effects_bsum; exact E.
+    destruct (apply_effects bk subs effs) as [[bk1 subs1]|] eqn:E; [|discriminate].
+    rewrite (IH _ _ _ _ _ _ _ _ _ _ _ H). eapply apply_effects_bsum; exact E.
 Qed.
 
 Lemma bet_endblock_frame fuel : forall s n s', bet_endblock fuel s n = Some s' -> mint_frame s s'.
@@ -97,12 +174,12 @@ Proof.
   - destruct (n <=? 0); [inv H; apply mint_frame_refl|].
     destruct (c_mqueue s) as [|m q] eqn:EQ; [inv H; apply mint_frame_refl|].
     destruct (get_ms s m) as [x|]; [|discriminate].
-    destruct (settle_bets _ x (c_bank s) (c_height s) (c_settledix s) 0) as [[[[x1 bk1] sidx1] cnt]|] eqn:ES; [|discriminate].
-    pose proof (settle_bets_bsum _ _ _ _ _ _ _ _ _ _ ES) as Hb.
+    destruct (settle_bets _ x (c_bank s) (c_subs s) (c_height s) (c_settledix s) 0) as [[[[[x1 bk1] subs1] sidx1] cnt]|] eqn:ES; [|discriminate].
+    pose proof (settle_bets_bsum _ _ _ _ _ _ _ _ _ _ _ _ ES) as Hb.
     destruct (ms_pending x1).
     + destruct (negb (bk_status (ms_book x1) =? BK_ACTIVE)); [discriminate|].
-      eapply mint_frame_trans; [|eapply IH; exact H]. apply mint_frame_upd. exact Hb.
-    + eapply mint_frame_trans; [|eapply IH; exact H]. apply mint_frame_upd. exact Hb.
+      eapply mint_frame_trans; [|eapply IH; exact H]. apply mint_frame_upd_subs. exact Hb.
+    + eapply mint_frame_trans; [|eapply IH; exact H]. apply mint_frame_upd_subs. exact Hb.
 Qed.
 
 Lemma ob_endblock_frame fuel : forall s n i s', ob_endblock fuel s n i = Some s' -> mint_frame s s'.
@@ -114,8 +191,8 @@ Proof.
     destruct (get_ms s m) as [x|]; [|discriminate].
     destruct (negb (bk_status (ms_book x) =? BK_RESOLVED)); [discriminate|].
     destruct (batch_parts _ _ _ _ _) as [[[[alls cnt] ps] effs]|]; [|discriminate].
-    destruct (apply_effects (c_bank s) effs) as [bk1|] eqn:EA; [|discriminate].
-    eapply mint_frame_trans; [|eapply IH; exact H]. apply mint_frame_upd.
+    destruct (apply_effects (c_bank s) (c_subs s) effs) as [[bk1 subs1]|] eqn:EA; [|discriminate].
+    eapply mint_frame_trans; [|eapply IH; exact H]. apply mint_frame_upd_subs.
     eapply apply_effects_bsum; exact EA.
 Qed.
 
@@ -127,7 +204,9 @@ Proof.
   unfold end_block.
   destruct (bet_endblock _ s _) as [s1|] eqn:E1; [|apply halt_frame].
   destruct (ob_endblock _ s1 _ _) as [s2|] eqn:E2; [|apply halt_frame].
-  cbn [fst]. eapply mint_frame_trans; [eapply bet_endblock_frame; exact E1|eapply ob_endblock_frame; exact E2].
+  cbn [fst]. eapply mint_frame_trans; [eapply bet_endblock_frame; exact E1|].
+  eapply mint_frame_trans; [eapply ob_endblock_frame; exact E2|].
+  unfold ovm_endblock. destruct (ovm_finish _ _ _ _). apply mint_frame_ovm.
 Qed.
 
 Lemma tx_frame s r : (forall s', r = Some s' -> mint_frame s s') -> mint_frame s (fst (tx s r)).
@@ -150,6 +229,14 @@ Proof.
   - eapply do_grant_frame; exact H.
   - eapply do_revoke_frame; exact H.
   - eapply do_send_frame; exact H.
+  - eapply ovm_propose_frame; exact H.
+  - eapply ovm_vote_frame; exact H.
+  - eapply sub_create_frame; exact H.
+  - eapply sub_topup_frame; exact H.
+  - eapply sub_withdraw_unlocked_frame; exact H.
+  - eapply sub_wager_frame; exact H.
+  - eapply sub_house_deposit_frame; exact H.
+  - eapply sub_house_withdraw_frame; exact H.
 Qed.
 
 (* BeginBlock: supply grows by exactly the minted amount, all of it credited to the fee collector *)
@@ -175,7 +262,7 @@ Definition supply_inv (s : chain) : Prop := bsum (c_bank s) = c_supply s.
 Lemma step_supply_inv s o : supply_inv s -> supply_inv (fst (step s o)).
 Proof.
   unfold supply_inv. intros Hinv.
-  destruct o as [t| | | | | | | | | | ];
+  destruct o as [t| | | | | | | | | | | | | | | | | | ];
     try (match goal with |- bsum (c_bank (fst (step s ?o))) = _ =>
            destruct (step_neutral s o ltac:(intros t0; discriminate)) as (A&_&_&B); congruence end).
   unfold step. destruct (c_halted s); [exact Hinv|].
